@@ -18,6 +18,20 @@ CHECKS = {
         note='In-process crash simulation (BaseException at effect boundaries; written data assumed on disk); '
              'TensorBoard summaries stubbed; harness-supplied deterministic algorithm/eval fns; TLC, JVM.',
         design='5/C09'),
+    'C19': dict(
+        technique='TLA+ spec Cache.tla model-checked by TLC (kills, torn writes, I/O errors at every step, liveness); '
+                  'real maybe_download/maybe_lzma_decompress explored breadth-first over fault-reachable cache '
+                  'directories with the fault interposer and a fake network, every call sequence validated as a '
+                  'trace by TLC (CacheTrace.tla)',
+        text='TLC exhausts the download/decompress protocol for all small payload sizes with up to 3-4 faults and '
+             'proves FinalCompleteOrAbsent, reuse-without-network, stability of complete entries and eventual repair; '
+             'every execution of the real functions under every single fault (kill before each effect, kill inside '
+             'each write with two prefixes, OSError at each effect, network failure at each block) from every cache '
+             'directory reachable by up to 2 (quick) / 3 (thorough) successive faults is accepted by the '
+             'specification with the real directory compared after every effect.',
+        note='In-process fault simulation; fake requests.get; payload sizes 0 B .. 3 transfer blocks; the CIFAR '
+             'SQLite conversion step is modelled out; TLC, JVM.',
+        design='5/C19'),
 }
 
 NOT_YET = 'check not built yet in this round (planned, see DESIGN.md section 5)'
